@@ -12,4 +12,4 @@ for p in "$@"; do
   ./check "$p" --tier ${TIER:-quick} > /tmp/seedtest_$tag_$p.out 2>&1; rc=$?
   echo "== $tag on $p: rc=$rc"; grep -E "VIOLATION|KNOWN|theorems" /tmp/seedtest_$tag_$p.out | cut -c1-300
 done
-git -C /repo checkout -- . ; git -C /repo status --porcelain | head -3
+git -C /repo checkout -- . ; git -C /verif checkout -- evidence/ 2>/dev/null; git -C /repo status --porcelain | head -3
